@@ -65,12 +65,35 @@ class World:
         self.owned.append([node_id, label, seq, self._seq_fp(seq, saved), saved])
         return seq
 
+    @staticmethod
+    def _obj_fp(obj):
+        """state of a caller-owned library OBJECT handed to a call (a request / settings-like object built for that call): its
+        attributes one level deep; the text names the attributes only, so that it is the same in every process"""
+        from sim.core import seams
+
+        return seams._fast_state(obj)
+
+    def own_obj(self, node_id, label, obj):
+        self.owned.append([node_id, label, obj, self._obj_fp(obj), None])
+        return obj
+
     def check_owned(self):
-        """-> list of (node_id, label) whose caller-owned array / list changed since it was handed over"""
+        """-> list of (node_id, label) whose caller-owned array / list / object changed since it was handed over"""
         bad = []
         for rec in self.owned:
             node_id, label, arr, fp, saved = rec
-            now = self._seq_fp(arr, saved) if isinstance(arr, list) else compare.fingerprint_array(arr)
+            if isinstance(arr, list):
+                now = self._seq_fp(arr, saved)
+            elif isinstance(arr, np.ndarray):
+                now = compare.fingerprint_array(arr)
+            else:
+                now = self._obj_fp(arr)
+                if now != fp:
+                    a, b = dict(fp[1]) if isinstance(fp, tuple) else {}, dict(now[1]) if isinstance(now, tuple) else {}
+                    changed = sorted(k for k in set(a) | set(b) if a.get(k) != b.get(k))
+                    rec[3] = now  # reported once
+                    bad.append((node_id, label, "attributes as handed over", "changed: " + ",".join(changed), rec))
+                continue
             if now != fp:
                 bad.append((node_id, label, fp, now, rec))
         return bad
@@ -81,7 +104,7 @@ class World:
         explores from the state the property promises instead of cascading from the known defect)."""
         if isinstance(rec[2], list):
             rec[2][:] = rec[4]
-        else:
+        elif isinstance(rec[2], np.ndarray):
             rec[2][...] = rec[4]
 
     # -- construction -------------------------------------------------------------------------------
@@ -199,6 +222,12 @@ class World:
         if "iterate" in o:
             return aa.OverSamplingIterate(fractional_accuracy=o.get("accuracy", 0.9999), sub_steps=list(o["iterate"]))
         raise BuildError(f"over spec {o}")
+
+    def _b_over_request(self, s):
+        """An OverSamplingDataset the caller keeps and hands to apply_over_sampling of one dataset after another (slots may be left None)."""
+        import autoarray as aa
+
+        return aa.OverSamplingDataset(**{k: aa.OverSamplingUniform(sub_size=int(x)) for k, x in s.get("slots", {}).items()})
 
     def _b_grid2d(self, s):
         import autoarray as aa
